@@ -20,7 +20,9 @@ TParse == /\ IsEvent("Parse") /\ UNCHANGED cur
 (* verification succeeds exactly under the issuing key and signer ID, on the untouched object *)
 TVerify == /\ IsEvent("Verify") /\ UNCHANGED cur
            /\ Chk((Ev.rc = 1) <=> (Ev.keyright /\ Ev.sidright /\ ~Ev.tampered))
-TLookup == /\ IsEvent("Lookup") /\ UNCHANGED cur /\ Chk((Ev.rc = 1) <=> Ev.listed)
+(* a listed serial is found with the revocation date, reason and invalidity date it was listed with (-1: extension absent) *)
+TLookup == /\ IsEvent("Lookup") /\ UNCHANGED cur
+           /\ Chk(((Ev.rc = 1) <=> Ev.listed) /\ (Ev.listed => Ev.rd = Ev.erd /\ Ev.reason = Ev.ereason /\ Ev.inv = Ev.einv /\ ((Ev.ereason # -1 \/ Ev.einv # -1) => Ev.xrc = 1)))
 TReset == IsEvent("Reset") /\ UNCHANGED cur
 Next == TIssue \/ TParse \/ TVerify \/ TLookup \/ TReset
 Spec == Init /\ [][Next]_<<l, cur>>
